@@ -17,6 +17,7 @@
 package c12
 
 import (
+	"context"
 	"errors"
 	"fmt"
 	"math/rand"
@@ -41,12 +42,13 @@ import (
 // ---------------------------------------------------------------- case spec
 
 type clientPlan struct {
-	Kind       string `json:"kind"` // quick | gated | pipelined | idle | partial | hijack | garbage | abort
+	Kind       string `json:"kind"` // quick | gated | pipelined | idle | partial | hijack | garbage | abort | kaidle | probe
 	IP         int    `json:"ip"`
 	Gate       int    `json:"gate"`
 	NReq       int    `json:"nreq,omitempty"`
 	CloseReq   bool   `json:"close_req,omitempty"` // last request carries Connection: close
 	StartDelay int    `json:"start_delay,omitempty"`
+	CloseErr   bool   `json:"close_err,omitempty"` // the server-side conn's Close reports an error (the socket is closed all the same)
 }
 
 type caseSpec struct {
@@ -61,6 +63,10 @@ type caseSpec struct {
 	GateOrder    []int        `json:"gate_order"`
 	GatePause    []int        `json:"gate_pause"`
 	Clients      []clientPlan `json:"clients"`
+	// Shutdown (Serve mode): the case ends with Server.Shutdown() while the kaidle connections (one request
+	// served, then silent) are idle; LateGate (-1: none) is opened only after Shutdown was called.
+	Shutdown bool `json:"shutdown,omitempty"`
+	LateGate int  `json:"late_gate"`
 }
 
 const nGates = 3
@@ -92,9 +98,45 @@ func genCase(rnd *rand.Rand) caseSpec {
 		if rnd.Intn(3) == 0 {
 			p.StartDelay = 1 + rnd.Intn(500)
 		}
+		p.CloseErr = rnd.Intn(5) == 0
 		cs.Clients = append(cs.Clients, p)
 	}
+	cs.LateGate = -1
+	if cs.Mode == "serve" && rnd.Intn(3) == 0 {
+		cs.Shutdown = true
+		if cs.PerIP == 0 && rnd.Intn(2) == 0 {
+			cs.PerIP = 1 + rnd.Intn(3)
+		}
+		if rnd.Intn(2) == 0 {
+			cs.LateGate = cs.GateOrder[nGates-1]
+			if cs.EarlyGate == cs.LateGate {
+				cs.EarlyGate = -1
+			}
+		}
+		// 1..Concurrency keep-alive connections that will be idle when Shutdown is called; they arrive first
+		nka := 1 + rnd.Intn(cs.Conc)
+		var ka []clientPlan
+		for i := 0; i < nka; i++ {
+			ka = append(ka, clientPlan{Kind: "kaidle", IP: rnd.Intn(cs.NIPs), NReq: 1, CloseErr: rnd.Intn(4) == 0})
+		}
+		cs.Clients = append(ka, cs.Clients...)
+		for i := range cs.Clients {
+			// clients that only sit on a client-side gate must be gone before Shutdown (a connection that never
+			// sent a request counts as busy for 5 s)
+			if k := cs.Clients[i].Kind; (k == "idle" || k == "partial") && cs.Clients[i].Gate == cs.LateGate {
+				cs.Clients[i].Gate = cs.GateOrder[0]
+			}
+		}
+	}
 	return cs
+}
+
+// lateDependent: the client cannot finish before the late gate is opened.
+func (cs *caseSpec) lateDependent(p clientPlan) bool {
+	if p.Kind == "kaidle" {
+		return true
+	}
+	return cs.LateGate >= 0 && p.Gate == cs.LateGate && (p.Kind == "gated" || p.Kind == "pipelined" || p.Kind == "hijack")
 }
 
 // ---------------------------------------------------------------- transport
@@ -141,8 +183,9 @@ type srvConn struct {
 	hijackReq   atomic.Bool  // a handler called ctx.Hijack for it
 	serveErr    atomic.Pointer[string]
 	serveDone   atomic.Bool
-	hjDone      atomic.Bool  // its HijackHandler returned
-	sawReject   atomic.Int32 // status of a complete 503/429 the client has parsed (set before it waits for the close)
+	hjDone      atomic.Bool   // its HijackHandler returned
+	kaReady     chan struct{} // kaidle: closed once the client has read its first response (or the stream ended)
+	sawReject   atomic.Int32  // status of a complete 503/429 the client has parsed (set before it waits for the close)
 }
 
 func (c *srvConn) Read(p []byte) (int, error) {
@@ -152,11 +195,29 @@ func (c *srvConn) Read(p []byte) (int, error) {
 	return c.Conn.Read(p)
 }
 
+var (
+	errAlreadyClosed = errors.New("c12 conn: use of closed network connection")
+	errCloseInjected = errors.New("c12 conn: close reported an error (injected)")
+)
+
+// Close closes the socket. Like a real socket it reports an error when it is closed a second time (this is what
+// the serving goroutine sees after Shutdown closed an idle connection underneath it); conns planned with CloseErr
+// report an error on the first Close as well.
 func (c *srvConn) Close() error {
-	if c.closes.Add(1) == 1 {
+	n := c.closes.Add(1)
+	if n == 1 {
 		c.cm.onClose(c)
 	}
-	return c.Conn.Close()
+	err := c.Conn.Close()
+	switch {
+	case n > 1:
+		c.cm.closeErrs.Add(1)
+		return errAlreadyClosed
+	case c.plan.CloseErr:
+		c.cm.closeErrs.Add(1)
+		return errCloseInjected
+	}
+	return err
 }
 
 // ---------------------------------------------------------------- monitor
@@ -181,6 +242,7 @@ type caseMon struct {
 	stNew, stActive, stIdle, stClosed, stHijacked atomic.Int64
 	hjStarted, hjReturned                         atomic.Int64
 	handlerCalls, unknownPaths                    atomic.Int64
+	closeErrs                                     atomic.Int64 // server-side Close calls that returned an error
 
 	vmu   sync.Mutex
 	viols map[string]string
@@ -478,6 +540,21 @@ func (cm *caseMon) runClient(sc *srvConn, cc net.Conn, arrived func()) (res clie
 	case "abort":
 		cc.Write([]byte(reqText(id, 0, fmt.Sprintf("g%d", p.Gate), false))) //nolint:errcheck
 		arrived()
+	case "kaidle":
+		// one request, then silence: the connection is idle (keep-alive) until the server ends it
+		cc.Write([]byte(reqText(id, 0, "i", false))) //nolint:errcheck
+		arrived()
+		msgs, eof := readMsgs(cc, sc, &buf, 1)
+		close(sc.kaReady)
+		if !eof {
+			msgs, eof = readMsgs(cc, sc, &buf, 1<<30)
+		}
+		finish(msgs, eof)
+	case "probe":
+		cc.Write([]byte(reqText(id, 0, "i", true))) //nolint:errcheck
+		arrived()
+		msgs, eof := readMsgs(cc, sc, &buf, 1<<30)
+		finish(msgs, eof)
 	}
 	cc.Close()
 	return res
@@ -549,6 +626,9 @@ type caseOut struct {
 	closedWithoutReading int
 	ms                   float64
 	settleRefuted        bool // the counters did not return to zero within settleCap
+	shutdownReturned     bool
+	idleAtShutdown       int // kaidle connections that had been served and were still open when Shutdown was called
+	probesOK             int
 }
 
 func runCase(idx int, spec caseSpec) *caseOut {
@@ -572,42 +652,67 @@ func runCase(idx int, spec caseSpec) *caseOut {
 	}
 	cm.srv = s
 	n := len(spec.Clients)
-	ln := &memListener{ch: make(chan net.Conn, n+1), done: make(chan struct{})}
-	pcs := make([]*fasthttputil.PipeConns, n)
-	for i, p := range spec.Clients {
+	total := n + spec.NIPs // one probe connection per IP is used after quiescence
+	newListener := func() *memListener {
+		return &memListener{ch: make(chan net.Conn, total+1), done: make(chan struct{})}
+	}
+	ln := newListener()
+	pcs := make([]*fasthttputil.PipeConns, total)
+	mk := func(i int, p clientPlan) {
 		pc := fasthttputil.NewPipeConns()
 		caddr := &net.TCPAddr{IP: net.IPv4(10, 0, 0, byte(1+p.IP)), Port: 10000 + i}
 		pc.SetAddresses(caddr, ln.Addr(), ln.Addr(), caddr)
 		pcs[i] = pc
-		cm.conns = append(cm.conns, &srvConn{Conn: pc.Conn2(), id: i, ip: p.IP, cm: cm, plan: p})
+		cm.conns = append(cm.conns, &srvConn{Conn: pc.Conn2(), id: i, ip: p.IP, cm: cm, plan: p, kaReady: make(chan struct{})})
 	}
-	serveDone := make(chan struct{})
-	if spec.Mode == "serve" {
+	for i, p := range spec.Clients {
+		mk(i, p)
+	}
+	for ip := 0; ip < spec.NIPs; ip++ {
+		mk(n+ip, clientPlan{Kind: "probe", IP: ip, NReq: 1, CloseErr: ip%2 == 1})
+	}
+	out.results = make([]clientResult, total)
+	startServe := func(l *memListener) chan struct{} {
+		done := make(chan struct{})
 		go func() {
-			defer close(serveDone)
+			defer close(done)
 			defer func() {
 				if e := recover(); e != nil {
 					cm.violate("panic", fmt.Sprintf("Serve panicked: %v\n%s", e, mon.Stacks()))
 				}
 			}()
-			s.Serve(ln) //nolint:errcheck
+			s.Serve(l) //nolint:errcheck
 		}()
+		return done
 	}
-	out.results = make([]clientResult, n)
-	var arrivedWG, clientsWG, serveConnWG sync.WaitGroup
-	arrivedWG.Add(n)
-	clientsWG.Add(n)
-	for i := range spec.Clients {
-		go func(i int) {
+	var serveDone chan struct{}
+	if spec.Mode == "serve" {
+		serveDone = startServe(ln)
+	}
+	var arrivedWG, clientsWG, earlyWG, serveConnWG sync.WaitGroup
+	// launch starts the client of connection i (always called from this goroutine, before the matching Wait)
+	launch := func(i int, l *memListener) chan struct{} {
+		sc := cm.conns[i]
+		early := !spec.lateDependent(sc.plan)
+		arrivedWG.Add(1)
+		clientsWG.Add(1)
+		if early {
+			earlyWG.Add(1)
+		}
+		done := make(chan struct{})
+		go func() {
+			defer close(done)
 			defer clientsWG.Done()
-			sc := cm.conns[i]
+			if early {
+				defer earlyWG.Done()
+			}
 			var once sync.Once
 			arrived := func() { once.Do(arrivedWG.Done) }
 			defer arrived()
 			pause(sc.plan.StartDelay)
 			if spec.Mode == "serve" {
-				ln.pushed.Add(1)
-				ln.ch <- sc
+				l.pushed.Add(1)
+				l.ch <- sc
 			} else {
 				serveConnWG.Add(1)
 				go func() {
@@ -627,34 +732,22 @@ func runCase(idx int, spec caseSpec) *caseOut {
 				}()
 			}
 			out.results[i] = cm.runClient(sc, pcs[i].Conn1(), arrived)
-		}(i)
+		}()
+		return done
 	}
 
 	// controller
-	if spec.EarlyGate >= 0 {
-		cm.openGate(spec.EarlyGate)
-	}
 	stuck := func(what string) {
-		cm.inconclusive(fmt.Sprintf("case %d (%s conc=%d perip=%d clients=%d): %s\n%s", idx, spec.Mode, spec.Conc, spec.PerIP, n, what, mon.Stacks()))
+		cm.inconclusive(fmt.Sprintf("case %d (%s conc=%d perip=%d clients=%d shutdown=%v): %s\n%s", idx, spec.Mode, spec.Conc, spec.PerIP, n, spec.Shutdown, what, mon.Stacks()))
 		for g := range cm.gates {
 			cm.openGate(g)
 		}
-	}
-	if !mon.Watchdog(quiesceCap, arrivedWG.Wait) {
-		stuck("clients did not finish arriving")
-		return out
-	}
-	if spec.Mode == "serve" {
-		if !pollUntil(quiesceCap, func() bool { return ln.accepted.Load() == ln.pushed.Load() && ln.pushed.Load() == int64(n) }) {
-			stuck(fmt.Sprintf("listener backlog not drained: pushed=%d accepted=%d", ln.pushed.Load(), ln.accepted.Load()))
-			return out
+		for _, pc := range pcs {
+			pc.Close() // let the abandoned goroutines go
 		}
 	}
-	for k, g := range spec.GateOrder {
-		pause(spec.GatePause[k])
-		cm.openGate(g)
-	}
-	if !mon.Watchdog(quiesceCap, clientsWG.Wait) {
+	// clientsStuck: verdicts that can be given although the clients never finished
+	clientsStuck := func(what string) {
 		// a client that has read a complete 503/429 only waits for the server's close
 		for _, c := range cm.conns {
 			if st := c.sawReject.Load(); st != 0 && c.closes.Load() == 0 {
@@ -668,10 +761,87 @@ func runCase(idx int, spec caseSpec) *caseOut {
 				cm.violate("hijack-released-not-closed", fmt.Sprintf("conn %d (ip#%d): HijackHandler returned but the server has not closed the connection %v later; per-IP counts %v (mode=%s MaxConnsPerIP=%d)", c.id, c.ip, quiesceCap, fasthttp.VerifPerIPCounts(s), spec.Mode, spec.PerIP))
 			}
 		}
-		stuck("client goroutines did not finish")
-		for _, pc := range pcs {
-			pc.Close() // let the abandoned goroutines go
+		stuck(what)
+	}
+	if spec.Shutdown {
+		// the keep-alive connections arrive first and have their one request answered (or are rejected)
+		for i, p := range spec.Clients {
+			if p.Kind == "kaidle" {
+				launch(i, ln)
+			}
 		}
+		if !mon.Watchdog(quiesceCap, func() {
+			for i, p := range spec.Clients {
+				if p.Kind == "kaidle" {
+					<-cm.conns[i].kaReady
+				}
+			}
+		}) {
+			stuck("keep-alive clients did not get their first response")
+			return out
+		}
+	}
+	for i, p := range spec.Clients {
+		if !(spec.Shutdown && p.Kind == "kaidle") {
+			launch(i, ln)
+		}
+	}
+	if spec.EarlyGate >= 0 {
+		cm.openGate(spec.EarlyGate)
+	}
+	if !mon.Watchdog(quiesceCap, arrivedWG.Wait) {
+		stuck("clients did not finish arriving")
+		return out
+	}
+	if spec.Mode == "serve" {
+		if !pollUntil(quiesceCap, func() bool { return ln.accepted.Load() == ln.pushed.Load() && ln.pushed.Load() == int64(n) }) {
+			stuck(fmt.Sprintf("listener backlog not drained: pushed=%d accepted=%d", ln.pushed.Load(), ln.accepted.Load()))
+			return out
+		}
+	}
+	for k, g := range spec.GateOrder {
+		if g == spec.LateGate {
+			continue
+		}
+		pause(spec.GatePause[k])
+		cm.openGate(g)
+	}
+	if spec.Shutdown {
+		// everything that does not depend on the late gate ends by itself; the kaidle connections stay idle
+		if !mon.Watchdog(quiesceCap, earlyWG.Wait) {
+			clientsStuck("client goroutines (those not waiting for Shutdown / the late gate) did not finish")
+			return out
+		}
+		for _, c := range cm.conns[:n] {
+			if c.plan.Kind == "kaidle" && c.handlers.Load() > 0 && c.closes.Load() == 0 {
+				out.idleAtShutdown++
+			}
+		}
+		shutErr := make(chan error, 1)
+		go func() {
+			defer func() {
+				if e := recover(); e != nil {
+					cm.violate("panic", fmt.Sprintf("Shutdown panicked: %v\n%s", e, mon.Stacks()))
+					shutErr <- fmt.Errorf("panic: %v", e)
+				}
+			}()
+			ctx, cancel := context.WithTimeout(context.Background(), 2*quiesceCap)
+			defer cancel()
+			shutErr <- s.ShutdownWithContext(ctx)
+		}()
+		if spec.LateGate >= 0 {
+			pause(spec.GatePause[nGates-1])
+			cm.openGate(spec.LateGate)
+		}
+		var serr error
+		if !mon.Watchdog(3*quiesceCap, func() { serr = <-shutErr }) || serr != nil {
+			clientsStuck(fmt.Sprintf("Shutdown did not complete (err=%v, open=%d)", serr, s.GetOpenConnectionsCount()))
+			return out
+		}
+		out.shutdownReturned = true
+	}
+	if !mon.Watchdog(quiesceCap, clientsWG.Wait) {
+		clientsStuck("client goroutines did not finish")
 		return out
 	}
 	if spec.Mode == "serveconn" {
@@ -680,24 +850,33 @@ func runCase(idx int, spec caseSpec) *caseOut {
 			return out
 		}
 	}
+	if spec.Shutdown {
+		if !mon.Watchdog(quiesceCap, func() { <-serveDone }) {
+			stuck("Serve did not return after Shutdown")
+			return out
+		}
+		out.serveReturned = true
+	}
 	// quiescence: every server-side conn closed by the server, hijack handlers returned, ConnState balanced
-	quiet := func() bool {
-		for _, c := range cm.conns {
-			if c.closes.Load() == 0 {
+	quiet := func(upto int) func() bool {
+		return func() bool {
+			for _, c := range cm.conns[:upto] {
+				if c.closes.Load() == 0 {
+					return false
+				}
+			}
+			if cm.hjStarted.Load() != cm.hjReturned.Load() {
 				return false
 			}
+			if spec.Mode == "serve" && cm.stNew.Load() != cm.stClosed.Load()+cm.stHijacked.Load() {
+				return false
+			}
+			return true
 		}
-		if cm.hjStarted.Load() != cm.hjReturned.Load() {
-			return false
-		}
-		if spec.Mode == "serve" && cm.stNew.Load() != cm.stClosed.Load()+cm.stHijacked.Load() {
-			return false
-		}
-		return true
 	}
-	if !pollUntil(quiesceCap, quiet) {
+	if !pollUntil(quiesceCap, quiet(n)) {
 		unclosed := []int{}
-		for _, c := range cm.conns {
+		for _, c := range cm.conns[:n] {
 			if c.closes.Load() == 0 {
 				unclosed = append(unclosed, c.id)
 			}
@@ -716,51 +895,106 @@ func runCase(idx int, spec caseSpec) *caseOut {
 
 	// counters must be back at zero (polled: after quiescence only the instructions between the server's
 	// Close and its Unregister / deferred release remain)
-	zero := func() bool {
-		sum, _ := perIPSum(fasthttp.VerifPerIPCounts(s))
-		o := s.GetOpenConnectionsCount()
-		openOK := o == 0 || (spec.Mode == "serveconn" && o == -1) // the -1 is judged separately below
-		return s.GetCurrentConcurrency() == 0 && openOK && sum == 0
+	ctxd := ""
+	checkZero := func(phase string) {
+		zero := func() bool {
+			sum, _ := perIPSum(fasthttp.VerifPerIPCounts(s))
+			return s.GetCurrentConcurrency() == 0 && s.GetOpenConnectionsCount() == 0 && sum == 0
+		}
+		if !pollUntil(settleCap, zero) {
+			out.settleRefuted = true
+		}
+		conc, open := s.GetCurrentConcurrency(), s.GetOpenConnectionsCount()
+		sum, perip := perIPSum(fasthttp.VerifPerIPCounts(s))
+		ctxd = fmt.Sprintf("mode=%s Concurrency=%d MaxConnsPerIP=%d clients=%d shutdown=%v (idle keep-alive conns at Shutdown: %d) server-side Close errors=%d; ConnState new=%d closed=%d hijacked=%d; hijack handlers %d", spec.Mode, spec.Conc, spec.PerIP, n, spec.Shutdown, out.idleAtShutdown, cm.closeErrs.Load(), cm.stNew.Load(), cm.stClosed.Load(), cm.stHijacked.Load(), cm.hjReturned.Load())
+		if phase == "quiescence" {
+			out.concAtQ, out.openAtQ = conc, open
+		}
+		if conc != 0 {
+			cm.violate("concurrency-counter-nonzero-at-quiescence", fmt.Sprintf("%s: GetCurrentConcurrency()=%d (as int32 %d) after every connection was closed/released, still after %v; %s", phase, conc, int32(conc), settleCap, ctxd))
+		}
+		if sum != 0 {
+			key := "perip-counter-nonzero-at-quiescence"
+			if spec.Shutdown && out.idleAtShutdown > 0 {
+				key = "perip-counter-nonzero-after-shutdown"
+			}
+			cm.violate(key, fmt.Sprintf("%s: per-IP counts {%s} after every connection was closed/released, still after %v; %s", phase, perip, settleCap, ctxd))
+		}
+		switch {
+		case open == 0:
+		case open == -1 && (spec.Mode == "serveconn" || out.serveReturned):
+			cm.violate("open-count-minus-one-without-listening-serve", fmt.Sprintf("%s: GetOpenConnectionsCount()=-1 with no Serve loop listening and every connection closed (the getter subtracts the +1 of a listening Serve even when none is running); %s", phase, ctxd))
+		default:
+			cm.violate("open-counter-nonzero-at-quiescence", fmt.Sprintf("%s: GetOpenConnectionsCount()=%d after every connection was closed/released, still after %v; %s", phase, open, settleCap, ctxd))
+		}
 	}
-	if !pollUntil(settleCap, zero) {
-		out.settleRefuted = true
-	}
-	out.concAtQ = s.GetCurrentConcurrency()
-	out.openAtQ = s.GetOpenConnectionsCount()
-	sum, perip := perIPSum(fasthttp.VerifPerIPCounts(s))
-	ctxd := fmt.Sprintf("mode=%s Concurrency=%d MaxConnsPerIP=%d clients=%d; ConnState new=%d closed=%d hijacked=%d; hijack handlers %d", spec.Mode, spec.Conc, spec.PerIP, n, cm.stNew.Load(), cm.stClosed.Load(), cm.stHijacked.Load(), cm.hjReturned.Load())
-	if out.concAtQ != 0 {
-		cm.violate("concurrency-counter-nonzero-at-quiescence", fmt.Sprintf("GetCurrentConcurrency()=%d (as int32 %d) after every connection was closed/released, still after %v; %s", out.concAtQ, int32(out.concAtQ), settleCap, ctxd))
-	}
-	if sum != 0 {
-		cm.violate("perip-counter-nonzero-at-quiescence", fmt.Sprintf("per-IP counts {%s} after every connection was closed/released, still after %v; %s", perip, settleCap, ctxd))
-	}
-	switch {
-	case out.openAtQ == 0:
-	case out.openAtQ == -1 && spec.Mode == "serveconn":
-		cm.violate("open-count-minus-one-without-listening-serve", fmt.Sprintf("GetOpenConnectionsCount()=-1 on a server used through ServeConn only, after every connection was closed (the getter subtracts the +1 of a listening Serve even when no Serve is running); %s", ctxd))
-	default:
-		cm.violate("open-counter-nonzero-at-quiescence", fmt.Sprintf("GetOpenConnectionsCount()=%d after every connection was closed/released, still after %v; %s", out.openAtQ, settleCap, ctxd))
-	}
+	checkZero("quiescence")
 
-	if spec.Mode == "serve" {
+	if spec.Mode == "serve" && !spec.Shutdown {
 		ln.Close()
 		if !mon.Watchdog(quiesceCap, func() { <-serveDone }) {
 			stuck("Serve did not return after the listener was closed")
 			return out
 		}
 		out.serveReturned = true
-		out.openAfter = s.GetOpenConnectionsCount()
-		if c := s.GetCurrentConcurrency(); c != 0 {
-			cm.violate("concurrency-counter-nonzero-at-quiescence", fmt.Sprintf("GetCurrentConcurrency()=%d after Serve returned; %s", c, ctxd))
+		checkZero("after Serve returned")
+	}
+	out.openAfter = s.GetOpenConnectionsCount()
+
+	// probe: with nothing open, one new connection per IP must be admitted, on a new Serve cycle of the same Server
+	// value (Serve mode) or through ServeConn. Sequential, and each probe starts only when the counters read zero,
+	// so a 429 cannot be explained by another live connection.
+	var ln2 *memListener
+	var serve2Done chan struct{}
+	if spec.Mode == "serve" {
+		ln2 = newListener()
+		serve2Done = startServe(ln2)
+	}
+	for ip := 0; ip < spec.NIPs; ip++ {
+		i := n + ip
+		if !out.settleRefuted {
+			if !pollUntil(settleCap, func() bool {
+				sum, _ := perIPSum(fasthttp.VerifPerIPCounts(s))
+				return sum == 0 && s.GetCurrentConcurrency() == 0
+			}) {
+				out.settleRefuted = true
+			}
 		}
-		switch out.openAfter {
-		case 0:
-		case -1:
-			cm.violate("open-count-minus-one-without-listening-serve", fmt.Sprintf("GetOpenConnectionsCount()=-1 after the listener was closed and Serve returned with no connection left (it was 0 while Serve was listening); %s", ctxd))
-		default:
-			cm.violate("open-counter-nonzero-at-quiescence", fmt.Sprintf("GetOpenConnectionsCount()=%d after Serve returned with no connection left; %s", out.openAfter, ctxd))
+		done := launch(i, ln2)
+		if !mon.Watchdog(quiesceCap, func() { <-done }) {
+			clientsStuck(fmt.Sprintf("probe connection from ip#%d did not finish", ip))
+			return out
 		}
+		if spec.Mode == "serveconn" {
+			if !mon.Watchdog(quiesceCap, serveConnWG.Wait) {
+				stuck("probe ServeConn did not return")
+				return out
+			}
+		}
+		r := out.results[i]
+		pd := fmt.Sprintf("probe conn from ip#%d after quiescence read statuses %v; per-IP counts before it were empty=%v; %s", ip, r.statuses, !out.settleRefuted, ctxd)
+		switch {
+		case len(r.statuses) > 0 && r.statuses[0] == 429:
+			cm.violate("429-with-nothing-open", pd)
+		case len(r.statuses) > 0 && r.statuses[0] == 503 && spec.Mode == "serveconn":
+			cm.violate("503-with-nothing-open", pd)
+		case len(r.statuses) > 0 && r.statuses[0] == 200:
+			out.probesOK++
+		}
+	}
+	if spec.Mode == "serve" {
+		ln2.Close()
+		if !mon.Watchdog(quiesceCap, func() { <-serve2Done }) {
+			stuck("second Serve did not return after its listener was closed")
+			return out
+		}
+	}
+	if !pollUntil(quiesceCap, quiet(total)) {
+		stuck("no quiescence after the probe connections")
+		return out
+	}
+	if !out.settleRefuted {
+		checkZero("after probes")
 	}
 
 	// per-connection verdicts
@@ -855,11 +1089,12 @@ func bucket(n int) string {
 func TestC12(t *testing.T) {
 	r := mon.Start(t, "C12")
 	defer r.Finish()
-	r.Rule("case = one fasthttp.Server (Concurrency 1-4, MaxConnsPerIP 1-3 or off, ReduceMemoryUsage/KeepHijackedConns varied) used through Serve(in-memory listener) or through ServeConn from one goroutine per connection, hit by 8-64 client goroutines from 2-3 fake IPv4 addresses with seeded behaviours (1-3 sequential requests, gated request, pipelined pair, idle, partial request, hijack held on a gate, garbage, abort) and seeded gate-opening order (one gate may open before the arrivals, the others only after every connection was accepted); 4 cases run concurrently under one seeded sched.Perturber (wp.*, srv.* hook points). distinct = feature vector (mode, Concurrency, MaxConnsPerIP, client-count bucket, buckets of 503/429/hijack counts, handler peak reached Concurrency, per-IP peak reached the limit); non-trivial = at least one connection was rejected or a limit was reached")
+	r.Rule("case = one fasthttp.Server (Concurrency 1-4, MaxConnsPerIP 1-3 or off, ReduceMemoryUsage/KeepHijackedConns varied) used through Serve(in-memory listener) or through ServeConn from one goroutine per connection, hit by 8-64 client goroutines from 2-3 fake IPv4 addresses with seeded behaviours (1-3 sequential requests, gated request, pipelined pair, idle, partial request, hijack held on a gate, garbage, abort; every fifth server-side conn reports an error from Close, and any second Close of a socket reports one, as a real socket does) and seeded gate-opening order (one gate may open before the arrivals, the others only after every connection was accepted); a third of the Serve-mode cases end with Server.Shutdown() while 1..Concurrency keep-alive connections (one request served) are idle, with one gate opened only after Shutdown was called; after quiescence one probe connection per IP must be admitted on a new Serve cycle of the same Server (or through ServeConn); 4 cases run concurrently under one seeded sched.Perturber (wp.*, srv.* hook points). distinct = feature vector (mode, Concurrency, MaxConnsPerIP, client-count bucket, buckets of 503/429/hijack counts, handler peak reached Concurrency, per-IP peak reached the limit); non-trivial = at least one connection was rejected or a limit was reached")
 	r.Assume("gauges are lower bounds of what the server holds: a connection counts from the server's first Read on it until the server's Close (both inside the worker / ServeConn hold and inside the per-IP registration); handlers are a subset; hijacked connections leave the Concurrency gauge when their handler returns and the per-IP gauge only when the server closes them")
 	r.Assume("spurious rejections (503/429 although a slot was free, possible because tryAcquireConcurrency and Register over-count transiently) are not judged: the property only bounds from above")
 	r.Assume("one Server is used either through one Serve call or through ServeConn, not both at once and not with two listeners (each Serve call has its own pool of Concurrency workers and does not consult the shared counter): mixed use is excluded as caller-defined")
 	r.Assume("harness quiescence (clients gone, every server-side conn closed by the server, hijack handlers returned, StateNew == StateClosed+StateHijacked) is polled with a 30 s cap whose firing is inconclusive; afterwards the counters get 10 s to settle (only the instructions between Close and Unregister/release remain)")
+	r.Assume("probe connections are sent one at a time and only once VerifPerIPCounts is empty and GetCurrentConcurrency is 0, so a 429 (or, for ServeConn, a 503) cannot be explained by another live connection; a 503 to a Serve-mode probe is not judged (the previous probe's worker may not have re-entered the ready list yet)")
 	r.Assume("idle/partial/abort clients do not read, so a rejection sent to them is not observed (counted as conns_unobserved)")
 
 	n := r.N(600, 20000)
@@ -933,7 +1168,7 @@ func TestC12(t *testing.T) {
 					r.Event("serveconn_err_perip_limit", c)
 				}
 			}
-			class := fmt.Sprintf("%s conc=%d perip=%d clients=%s 503=%s 429=%s hj=%s peakConc=%v peakIP=%v rm=%v", spec.Mode, spec.Conc, spec.PerIP, bucket(len(spec.Clients)), bucket(n503), bucket(n429), bucket(hj), peakConc, peakIP, spec.ReduceMem)
+			class := fmt.Sprintf("%s conc=%d perip=%d clients=%s 503=%s 429=%s hj=%s peakConc=%v peakIP=%v rm=%v shutdown=%v/%s late=%v", spec.Mode, spec.Conc, spec.PerIP, bucket(len(spec.Clients)), bucket(n503), bucket(n429), bucket(hj), peakConc, peakIP, spec.ReduceMem, spec.Shutdown, bucket(out.idleAtShutdown), spec.LateGate >= 0)
 			r.Case(class, n503 > 0 || n429 > 0 || peakConc || peakIP)
 			r.Event("client_conns", len(spec.Clients))
 			r.Event("handler_calls", int(cm.handlerCalls.Load()))
@@ -953,6 +1188,18 @@ func TestC12(t *testing.T) {
 			}
 			if peakIP {
 				r.Event("cases_perip_peak_eq_limit", 1)
+			}
+			r.Event("server_side_close_errors", int(cm.closeErrs.Load()))
+			r.Event("probe_conns_admitted", out.probesOK)
+			if spec.Shutdown {
+				r.Event("shutdown_cases", 1)
+				if out.shutdownReturned {
+					r.Event("shutdown_returned", 1)
+				}
+				r.Event("idle_keepalive_conns_at_shutdown", out.idleAtShutdown)
+				if out.idleAtShutdown > 0 && spec.PerIP > 0 {
+					r.Event("shutdown_cases_with_idle_perip_conns", 1)
+				}
 			}
 			if out.reachedQuiescence {
 				r.Event("quiescence_counter_checks", 1)
@@ -1023,5 +1270,10 @@ func TestC12(t *testing.T) {
 		r.Require("hijack_handlers_returned", n/4)
 		r.Require("cases_handler_peak_eq_concurrency", n/4)
 		r.Require("cases_perip_peak_eq_limit", n/4)
+		r.Require("shutdown_returned", n/12)
+		r.Require("shutdown_cases_with_idle_perip_conns", n/20)
+		r.Require("idle_keepalive_conns_at_shutdown", n/12)
+		r.Require("server_side_close_errors", n)
+		r.Require("probe_conns_admitted", n)
 	}
 }
